@@ -1,5 +1,306 @@
-import FastorModel.Model.Network
+import FastorModel.Proofs.Network
+import FastorModel.Proofs.Einsum
+/-
+# C15 — einsum of three or more operands
+
+Property: for three or more operands, einsum returns the tensor whose free indices are the
+non-repeated indices in order of first appearance across the operand index lists and whose elements
+equal the full Einstein sum of the operand products, whichever pairwise evaluation order the
+compile-time cost model selects and whether operation minimisation is enabled or disabled.  The
+result's extents and element order therefore never depend on operand sizes.
+
+Reading of the statements (model: `Model/Network.lean`).
+* `triplet A B C` / `quartet A B C D` are the cost-model metafunctions; `.variant` is the evaluation
+  order they select (it depends on the extents), `.res` the index list and extents of the tensor that
+  the selected chain of pairwise contractions *computes*.  `declared ops` is what the return type
+  says: the free indices in order of first appearance.  `eval3`/`eval4` are the evaluations,
+  `directVals` the single loop nest used with operation minimisation off.
+* Hypotheses: `AtMostTwice ops` (every index name occurs at most twice over all operands),
+  `WF A` (`A.idx.length = A.dims.length`), and for the value theorems `Cons ext A`
+  (`A.dims = A.idx.map ext`: every occurrence of a name carries the extent `ext` gives it).
+
+What is proved.
+* N1 `pairRes_idx_count`, `pairRes_idx_nodup`, `free_set`: the index list of a pairwise result.
+* N2 `triplet_res_perm`, `quartet_res_perm`: whatever the cost model selects, the computed result
+  has the declared free indices *as a set with their extents* (a permutation of the declared list,
+  extents travelling with the names).
+* N3 `index_order_partial`: the computed result IS the declared one (same order, same extents)
+  whenever the selected variant is not 1, and for variant 1 when operand 1 or operand 0 has no free
+  index.  `index_order_iff`: this condition is exact.
+* N4 `index_order_counterexample`: **the full index-order statement is false of the current code**:
+  `einsum<Index<0,1>,Index<2,3>,Index<1,3>>` on 2x6, 3x7, 6x7 selects variant 1 and computes the
+  layout (2,0) although (0,2) is declared (known finding F9).  `order_depends_on_extents`: the same
+  index lists with other extents give the declared order, so the element order depends on sizes.
+* N5 `associativity_v0/v1/v2`: Einstein(Einstein(X,Y),Z) = Einstein(A,B,C) for the three shapes, at
+  the level of named assignments (`einsteinSum`), under `AtMostTwice`.  `eval3_value_partial`,
+  `eval4_value_partial`: for every variant, the cell of the computed result addressed by the free
+  names of `σ` (in the computed order) holds the full Einstein sum — *relative to* the hypothesis
+  `PairwiseCorrect` (the pairwise loop nest computes the pairwise Einstein sum; that is property C03's
+  loop-nest theorem restated over named assignments; it is not proved here, hence `_partial`).
+* N6 `direct_order`: with operation minimisation off the result order is the declared one.
+-/
 namespace Fastor.C15
-/-- placeholder while the C15 theorems are being written -/
-theorem placeholder_true : True := trivial
+open Fastor.Einsum Fastor.Network
+
+/-! ### N1: the index list of a pairwise result -/
+
+theorem pairRes_idx_count (A B : Operand) (x : Nat) :
+    x ∈ (pairRes A B).idx ↔ (A.idx ++ B.idx).count x = 1 :=
+  mem_resultIdx
+
+theorem pairRes_idx_nodup (A B : Operand) : (pairRes A B).idx.Nodup :=
+  Network.resultIdx_nodup _
+
+/-- under `AtMostTwice` an index of the pair is either free (in the result) or contracted (occurs
+    exactly twice), never both -/
+theorem free_set (A B : Operand) (h : AtMostTwice [A, B]) (x : Nat) :
+    x ∈ (pairRes A B).idx ↔ (x ∈ A.idx ++ B.idx ∧ (A.idx ++ B.idx).count x ≠ 2) := by
+  rw [pairRes_idx_count]
+  have h2 := amt2_iff.1 h x
+  rw [← List.count_append] at h2
+  constructor
+  · intro h1
+    exact ⟨List.count_pos_iff.1 (by omega), by omega⟩
+  · rintro ⟨h1, h3⟩
+    have := List.count_pos_iff.2 h1
+    omega
+
+/-! ### N2: the computed result has the declared free indices and extents, up to order -/
+
+/-- **N2.**  Whatever variant the cost model selects (the extents are universally quantified). -/
+theorem triplet_res_perm (A B C : Operand) (hA : WF A) (hB : WF B) (hC : WF C)
+    (h : AtMostTwice [A, B, C]) :
+    (triplet A B C).res.idx.Perm (declared [A, B, C]).idx ∧
+    ((triplet A B C).res.idx.zip (triplet A B C).res.dims).Perm
+      ((declared [A, B, C]).idx.zip (declared [A, B, C]).dims) :=
+  ⟨triplet_idx_perm h, triplet_zp_perm hA hB hC h⟩
+
+/-- **N2'.**  Four operands. -/
+theorem quartet_res_perm (A B C D : Operand) (hA : WF A) (hB : WF B) (hC : WF C) (hD : WF D)
+    (h : AtMostTwice [A, B, C, D]) :
+    (quartet A B C D).res.idx.Perm (declared [A, B, C, D]).idx ∧
+    ((quartet A B C D).res.idx.zip (quartet A B C D).res.dims).Perm
+      ((declared [A, B, C, D]).idx.zip (declared [A, B, C, D]).dims) :=
+  ⟨quartet_idx_perm hA hB hC hD h, quartet_zp_perm hA hB hC hD h⟩
+
+/-! ### N3: where the index order is the declared one -/
+
+/-- **N3.**  The computed result equals the declared one — same index order, same extents — if the
+    selected variant is not 1, or operand 1 has no free index, or operand 0 has no free index. -/
+theorem index_order_partial (A B C : Operand) (hA : WF A) (hB : WF B) (hC : WF C)
+    (h : AtMostTwice [A, B, C])
+    (hv : (triplet A B C).variant ≠ 1 ∨ freeIn [A, B, C] B = [] ∨ freeIn [A, B, C] A = []) :
+    (triplet A B C).res = declared [A, B, C] := by
+  by_cases h0 : (triplet A B C).variant = 0
+  · rw [triplet_res_v0 h0]; exact res_v0 hA hB hC h
+  · by_cases h1 : (triplet A B C).variant = 1
+    · rw [triplet_res_v1 h1]
+      rcases hv with hv | hv
+      · exact absurd h1 hv
+      · exact res_v1 hA hB hC h hv
+    · rw [triplet_res_v2 h0 h1]; exact res_v2 hA hB hC h
+
+/-- the condition of `index_order_partial` is exact (index lists only; no hypothesis on extents) -/
+theorem index_order_iff (A B C : Operand) (h : AtMostTwice [A, B, C]) :
+    (triplet A B C).res.idx = (declared [A, B, C]).idx ↔
+      ((triplet A B C).variant ≠ 1 ∨ freeIn [A, B, C] B = [] ∨ freeIn [A, B, C] A = []) := by
+  by_cases h0 : (triplet A B C).variant = 0
+  · rw [triplet_res_v0 h0]
+    exact ⟨fun _ => Or.inl (by omega), fun _ => idx_v0 h⟩
+  · by_cases h1 : (triplet A B C).variant = 1
+    · rw [triplet_res_v1 h1, idx_v1_eq_iff h]
+      constructor
+      · exact fun hf => Or.inr hf
+      · rintro (hv | hf)
+        · exact absurd h1 hv
+        · exact hf
+    · rw [triplet_res_v2 h0 h1]
+      exact ⟨fun _ => Or.inl h1, fun _ => idx_v2 h⟩
+
+/-- in variant 1 the computed order is: free indices of operand 1, then of operand 0, then of
+    operand 2 -/
+theorem index_order_variant1 (A B C : Operand) (h : AtMostTwice [A, B, C])
+    (hv : (triplet A B C).variant = 1) :
+    (triplet A B C).res.idx = freeIn [A, B, C] B ++ freeIn [A, B, C] A ++ freeIn [A, B, C] C ∧
+    (declared [A, B, C]).idx = freeIn [A, B, C] A ++ freeIn [A, B, C] B ++ freeIn [A, B, C] C := by
+  rw [triplet_res_v1 hv]
+  exact ⟨idx_v1 h, declared3_idx_split⟩
+
+/-! ### N4: the full index-order statement is false of the current code -/
+
+/-- the instance of known finding F9 -/
+def exA : Operand := ⟨[0, 1], [2, 6]⟩
+def exB : Operand := ⟨[2, 3], [3, 7]⟩
+def exC : Operand := ⟨[1, 3], [6, 7]⟩
+
+/-- **N4.**  Variant 1 is selected, the computed layout is `(2,0)` with extents `3x2`, the declared
+    one is `(0,2)` with extents `2x3`. -/
+theorem index_order_counterexample :
+    (triplet exA exB exC).variant = 1 ∧
+    (triplet exA exB exC).res.idx ≠ (declared [exA, exB, exC]).idx ∧
+    (triplet exA exB exC).res = ⟨[2, 0], [3, 2]⟩ ∧
+    declared [exA, exB, exC] = ⟨[0, 2], [2, 3]⟩ := by
+  simp only [triplet, argmin4]
+  decide
+
+/-- the same index lists with other extents (names 0,1 exchanged their extents 2 and 6) select
+    variant 2 and give the declared order: the computed element order depends on operand sizes -/
+theorem order_depends_on_extents :
+    (triplet ⟨[0, 1], [2, 6]⟩ ⟨[2, 3], [3, 7]⟩ ⟨[1, 3], [6, 7]⟩).res.idx = [2, 0] ∧
+    (triplet ⟨[0, 1], [6, 2]⟩ ⟨[2, 3], [3, 7]⟩ ⟨[1, 3], [2, 7]⟩).res.idx = [0, 2] ∧
+    (triplet ⟨[0, 1], [6, 2]⟩ ⟨[2, 3], [3, 7]⟩ ⟨[1, 3], [2, 7]⟩).variant = 2 := by
+  simp only [triplet, argmin4]
+  decide
+
+/-! ### N5: values -/
+
+section Values
+variable {R : Type} [CommSemiring R] (ext : Nat → Nat)
+
+/-- **N5, shape `(A·B)·C`.**  If `pv` holds the Einstein sum of `A,B` — the cell addressed by the free
+    names of `τ` is the sum over all assignments of the names contracted inside the pair — then the
+    Einstein sum of the pair result with `C` is the Einstein sum of the three operands: summing first
+    over the names internal to the pair and then over the rest is summing over all contracted names
+    at once. -/
+theorem associativity_v0 (A B C : Operand) (a b c pv : List R) (h : AtMostTwice [A, B, C])
+    (hpv : ∀ τ, (∀ x ∈ (pairRes A B).idx, τ x < ext x) →
+      pv.getD (offset (pairRes A B) τ) 0 = einsteinSum ext [A, B] [a, b] τ)
+    (σ : Nat → Nat) (hσ : ∀ x ∈ (declared [A, B, C]).idx, σ x < ext x) :
+    einsteinSum ext [pairRes A B, C] [pv, c] σ = einsteinSum ext [A, B, C] [a, b, c] σ :=
+  einstein_assoc_v0 ext A B C a b c pv h hpv σ hσ
+
+/-- **N5, shape `B·(A·C)`** (variant 1) -/
+theorem associativity_v1 (A B C : Operand) (a b c pv : List R) (h : AtMostTwice [A, B, C])
+    (hpv : ∀ τ, (∀ x ∈ (pairRes A C).idx, τ x < ext x) →
+      pv.getD (offset (pairRes A C) τ) 0 = einsteinSum ext [A, C] [a, c] τ)
+    (σ : Nat → Nat) (hσ : ∀ x ∈ (declared [A, B, C]).idx, σ x < ext x) :
+    einsteinSum ext [B, pairRes A C] [b, pv] σ = einsteinSum ext [A, B, C] [a, b, c] σ :=
+  einstein_assoc_v1 ext A B C a b c pv h hpv σ hσ
+
+/-- **N5, shape `A·(B·C)`** (variants 2 and 3) -/
+theorem associativity_v2 (A B C : Operand) (a b c pv : List R) (h : AtMostTwice [A, B, C])
+    (hpv : ∀ τ, (∀ x ∈ (pairRes B C).idx, τ x < ext x) →
+      pv.getD (offset (pairRes B C) τ) 0 = einsteinSum ext [B, C] [b, c] τ)
+    (σ : Nat → Nat) (hσ : ∀ x ∈ (declared [A, B, C]).idx, σ x < ext x) :
+    einsteinSum ext [A, pairRes B C] [a, pv] σ = einsteinSum ext [A, B, C] [a, b, c] σ :=
+  einstein_assoc_v2 ext A B C a b c pv h hpv σ hσ
+
+/-- the order in which the contracted names are summed is irrelevant: any duplicate-free enumeration
+    of the repeated names gives `einsteinSum` -/
+theorem einsteinSum_any_order (ops : List Operand) (vals : List (List R)) (ns : List Nat)
+    (hnd : ns.Nodup) (hns : ∀ x, x ∈ ns ↔ 2 ≤ (ops.flatMap (·.idx)).count x) (σ : Nat → Nat) :
+    sumOver ext ns σ (term ops vals) = einsteinSum ext ops vals σ :=
+  sumOver_of_mem_iff ext hnd (contracted_nodup _) (fun x => by rw [hns, mem_contracted]) σ _
+
+/-- **the bridge to C03.**  `LoopnestCell R` is the cell-wise loop-nest theorem of the pairwise einsum
+    (C03, `Pair.loopnest_cell`: the cell with in-range multi-index `m` holds the sum of the terms of
+    all loop assignments whose free part is `m`), stated with model definitions only.  It yields the
+    pairwise fact over *named* assignments: the cell of `pairVals A B a b` addressed by the free names
+    of `σ` holds `einsteinSum ext [A, B] [a, b] σ`. -/
+theorem pairwise_of_loopnest_cell (hcell : LoopnestCell R) : PairwiseCorrect R ext :=
+  pairwiseCorrect_of_loopnestCell ext hcell
+
+/-- **N5, executable evaluation, 3 operands (partial: relative to the pairwise loop-nest theorem).**
+    For every variant the cost model can select, the cell of the computed buffer addressed — in the
+    computed index order `(eval3 …).1` — by the free names of `σ` holds the full Einstein sum of the
+    three operands.  The only thing missing for the unconditional statement is `hcell`, which is
+    exactly the statement of C03's `Pair.loopnest_cell` (proved in the C03 development; see the note at
+    the end of this file for the three-line join). -/
+theorem eval3_value_partial (hcell : LoopnestCell R) (A B C : Operand)
+    (hA : Cons ext A) (hB : Cons ext B) (hC : Cons ext C) (h : AtMostTwice [A, B, C])
+    (a b c : List R) (σ : Nat → Nat) (hσ : ∀ x ∈ (declared [A, B, C]).idx, σ x < ext x) :
+    (eval3 A B C a b c).2.getD (offset (eval3 A B C a b c).1 σ) 0
+      = einsteinSum ext [A, B, C] [a, b, c] σ :=
+  eval3_value_of_pairwise ext (pairwiseCorrect_of_loopnestCell ext hcell) A B C hA hB hC h a b c σ hσ
+
+/-- **N5, executable evaluation, 4 operands (partial in the same sense).** -/
+theorem eval4_value_partial (hcell : LoopnestCell R) (A B C D : Operand)
+    (hA : Cons ext A) (hB : Cons ext B) (hC : Cons ext C) (hD : Cons ext D)
+    (h : AtMostTwice [A, B, C, D]) (a b c d : List R) (σ : Nat → Nat)
+    (hσ : ∀ x ∈ (declared [A, B, C, D]).idx, σ x < ext x) :
+    (eval4 A B C D a b c d).2.getD (offset (eval4 A B C D a b c d).1 σ) 0
+      = einsteinSum ext [A, B, C, D] [a, b, c, d] σ :=
+  eval4_value_of_pairwise ext (pairwiseCorrect_of_loopnestCell ext hcell) A B C D hA hB hC hD h
+    a b c d σ hσ
+
+/-- the index list and extents `eval3` reports are those of the cost model's plan -/
+theorem eval3_result (A B C : Operand) (a b c : List R) :
+    (eval3 A B C a b c).1 = (triplet A B C).res :=
+  eval3_fst A B C a b c
+
+end Values
+
+/-! ### N6: operation minimisation off -/
+
+/-- **N6.**  The single loop nest produces the declared index order and extents by construction. -/
+theorem direct_order {α : Type} [Zero α] [Add α] [Mul α] (ops : List Operand) (vals : List (List α)) :
+    (directVals ops vals).1 = declared ops := rfl
+
+/-! ### non-vacuity -/
+
+/-- a decidable sufficient test for `AtMostTwice` -/
+theorem atMostTwice_of_forall_mem (ops : List Operand)
+    (h : ∀ x ∈ ops.flatMap (·.idx), (ops.flatMap (·.idx)).count x ≤ 2) : AtMostTwice ops := by
+  intro x
+  by_cases hx : x ∈ ops.flatMap (·.idx)
+  · exact h x hx
+  · rw [List.count_eq_zero_of_not_mem hx]; omega
+
+/-- extents by name for the examples: names 0..4 have extents 2, 6, 3, 7, 5 -/
+def exExt : Nat → Nat := fun x => [2, 6, 3, 7, 5].getD x 0
+def exD : Operand := ⟨[0, 4], [2, 5]⟩
+
+example : AtMostTwice [exA, exB] := atMostTwice_of_forall_mem _ (by decide)
+example : AtMostTwice [exA, exB, exC] := atMostTwice_of_forall_mem _ (by decide)
+example : AtMostTwice [exA, exB, exC, exD] := atMostTwice_of_forall_mem _ (by decide)
+example : WF exA ∧ WF exB ∧ WF exC ∧ WF exD := by decide
+example : Cons exExt exA ∧ Cons exExt exB ∧ Cons exExt exC ∧ Cons exExt exD := by decide
+/-- the hypothesis of `index_order_partial` is met by a chain (variant 2 is selected) … -/
+example : (triplet ⟨[0, 1], [2, 3]⟩ ⟨[1, 2], [3, 4]⟩ ⟨[2, 3], [4, 2]⟩).variant ≠ 1 := by
+  simp only [triplet, argmin4]; decide
+/-- … and by a variant-1 instance in which operand 0 has no free index -/
+example : (triplet ⟨[1], [6]⟩ ⟨[2, 3], [3, 7]⟩ ⟨[1, 3], [6, 7]⟩).variant = 1 ∧
+    freeIn [⟨[1], [6]⟩, ⟨[2, 3], [3, 7]⟩, ⟨[1, 3], [6, 7]⟩] ⟨[1], [6]⟩ = [] := by
+  simp only [triplet, argmin4]; decide
+/-- the specification computes what one expects: row 1 of `[[1,2],[3,4]]` times column 0 of
+    `[[5,6],[7,8]]` is `3*5 + 4*7` -/
+example : einsteinSum (R := Nat) (fun _ => 2) [⟨[0, 1], [2, 2]⟩, ⟨[1, 2], [2, 2]⟩]
+    [[1, 2, 3, 4], [5, 6, 7, 8]] (fun x => if x = 0 then 1 else 0) = 43 := by decide
+/-- an in-range assignment of the free names of the example network -/
+example : ∀ x ∈ (declared [exA, exB, exC]).idx, (fun _ => 1) x < exExt x := by decide
+
+/-- the pairwise loop-nest fact is the C03 theorem `Fastor.Einsum.Pair.loopnest_cell` -/
+theorem loopnestCell_holds {R : Type} [CommSemiring R] : LoopnestCell R :=
+  fun p hI hJ a b _ hm => Fastor.Einsum.Pair.loopnest_cell p hI hJ a b hm
+
+/-- **C15, values, 3 operands (unconditional).**  For every variant the cost model can pick, the cell
+    of the computed result addressed (in the computed index order) by the free names of `σ` holds the
+    full Einstein sum of the three operands. -/
+theorem eval3_value {R : Type} [CommSemiring R] (ext : Nat → Nat) (A B C : Operand)
+    (hA : Cons ext A) (hB : Cons ext B) (hC : Cons ext C) (h : AtMostTwice [A, B, C])
+    (a b c : List R) (σ : Nat → Nat) (hσ : ∀ x ∈ (declared [A, B, C]).idx, σ x < ext x) :
+    (eval3 A B C a b c).2.getD (offset (eval3 A B C a b c).1 σ) 0
+      = einsteinSum ext [A, B, C] [a, b, c] σ :=
+  eval3_value_partial ext loopnestCell_holds A B C hA hB hC h a b c σ hσ
+
+/-- **C15, values, 4 operands (unconditional).** -/
+theorem eval4_value {R : Type} [CommSemiring R] (ext : Nat → Nat) (A B C D : Operand)
+    (hA : Cons ext A) (hB : Cons ext B) (hC : Cons ext C) (hD : Cons ext D)
+    (h : AtMostTwice [A, B, C, D]) (a b c d : List R) (σ : Nat → Nat)
+    (hσ : ∀ x ∈ (declared [A, B, C, D]).idx, σ x < ext x) :
+    (eval4 A B C D a b c d).2.getD (offset (eval4 A B C D a b c d).1 σ) 0
+      = einsteinSum ext [A, B, C, D] [a, b, c, d] σ :=
+  eval4_value_partial ext loopnestCell_holds A B C D hA hB hC hD h a b c d σ hσ
+
+/-
+(historical note) Join with C03 (to be enabled once `FastorModel/Proofs/Einsum.lean` of the C03 development is in the
+tree; checked against its current version, axioms: propext, Classical.choice, Quot.sound):
+
+  import FastorModel.Proofs.Einsum
+  theorem loopnestCell_holds {R : Type} [CommSemiring R] : LoopnestCell R :=
+    fun p hI hJ a b _ hm => Fastor.Einsum.Pair.loopnest_cell p hI hJ a b hm
+  -- then `eval3_value_partial ext loopnestCell_holds …` and `eval4_value_partial ext loopnestCell_holds …`
+  -- are the unconditional value theorems.
+-/
+
 end Fastor.C15
